@@ -225,6 +225,21 @@ UnitsPtr Model::takeUnits(const std::string &name)
 bool Model::replaceUnits(size_t index, const UnitsPtr &units)
 {
     bool status = false;
+    if ((units == nullptr) || (index >= pFunc()->mUnits.size())) {
+        return false;
+    }
+    auto oldUnits = pFunc()->mUnits.at(index);
+    if (units == oldUnits) {
+        return true;
+    }
+    if (units->hasParent()) {
+        // The replacement is moved: it must not stay listed by its previous model.
+        auto previousParent = std::dynamic_pointer_cast<Model>(units->parent());
+        if (previousParent != nullptr) {
+            previousParent->removeUnits(units);
+        }
+        index = size_t(std::find(pFunc()->mUnits.begin(), pFunc()->mUnits.end(), oldUnits) - pFunc()->mUnits.begin());
+    }
     if (removeUnits(index)) {
         pFunc()->mUnits.insert(pFunc()->mUnits.begin() + ptrdiff_t(index), units);
         units->pFunc()->setParent(shared_from_this());
